@@ -231,6 +231,15 @@ def _gran_forwarding(ctx, pid, comp, ex, cn, wports, gnone):
 
 def check(ctx):
     check_bank(ctx)
+    # MemoryBank is parametrised by the memory type; the well-formedness of the ILVT of the multiport memories it may be
+    # instantiated with is part of its mechanism (a too narrow bank index makes reads return another bank's contents)
+    from . import c23y
+
+    MEM = "transactron/utils/amaranth_ext/memory.py"
+    ctx.use(MEM)
+    comp = Component(ctx.repo, MEM, "MultiportILVTMemory", rule="C21")
+    n = sum(c23y.ilvt_entry_width(ctx, ex, "C21") for ex in comp.configs)
+    ctx.floor("C21", "ILVT instances", n, 2, comp.site)
 
 
 MUTANTS = [
